@@ -31,8 +31,16 @@ def _instances(t: Template) -> List[str]:
     out = []
     for d in DIGITS:
         for u in ('', 'u'):
-            out.append(''.join(s.text if s.kind in ('lit', 'label') else (d if s.kind == 'value' else u) for s in t.segs))
+            out.append(''.join(s.text if s.kind in ('lit', 'label') else (_pad(d, s.spec) if s.kind == 'value' else u) for s in t.segs))
     return out
+
+
+def _pad(d: str, spec: str) -> str:
+    """A number formatted with a width is right-aligned in it: `{x:10.2f}` directly after a colon still leaves blanks in between."""
+    m = re.match(r'^[<>^=]?[+\- ]?#?0?(\d+)', spec or '')
+    if m and not (spec or '').startswith('<'):
+        return d.rjust(int(m.group(1)))
+    return d
 
 
 def _matches(t: Template, needle: str) -> bool:
@@ -198,6 +206,30 @@ def _writes_tested_state(fn, test: ast.AST) -> bool:
     return False
 
 
+# client fields no writer of this tree prints: kept by the client so that reports written by earlier versions still parse (one reason per row)
+LEGACY_FIELDS = {
+    ('SUMMARY OF RESULTS', 'Direct-Use Cooling Breakeven Price'): 'label before "(LCOC)" was appended; the current label is listed next to it',
+    ('SUMMARY OF RESULTS', 'Well depth (or total length, if not vertical)'): 'marked deprecated in the client table',
+    ('ENGINEERING PARAMETERS', 'Well depth (or total length, if not vertical)'): 'marked deprecated in the client table',
+    ('EXTENDED ECONOMICS', 'Project Payback Period       (including AddOns)'): 'the add-on writer prints `AddOns Payback Period` (also listed)',
+    ('CCUS ECONOMICS', 'Total Avoided Carbon Production'): 'CCUS section of earlier versions (see the legacy CCUS profile reader)',
+    ('CCUS ECONOMICS', 'Project NPV            (including carbon credit)'): 'CCUS section of earlier versions',
+    ('CCUS ECONOMICS', 'Project IRR            (including carbon credit)'): 'CCUS section of earlier versions',
+    ('CCUS ECONOMICS', 'Project VIR=IR=PIR     (including carbon credit)'): 'CCUS section of earlier versions',
+    ('CCUS ECONOMICS', 'Project MOIC           (including carbon credit)'): 'CCUS section of earlier versions',
+    ('CCUS ECONOMICS', 'Project Payback Period (including carbon credit)'): 'CCUS section of earlier versions',
+    ('OPERATING AND MAINTENANCE COSTS (M$/yr)', 'Average annual pumping costs'): 'earlier label of `Average Reservoir Pumping Cost`',
+}
+
+
+def _nearest_label(templates, name: str):
+    want = re.sub(r'\s+', ' ', name).strip().lower()
+    for t in templates:
+        if t.label and re.sub(r'\s+', ' ', t.label).strip().lower() == want:
+            return t
+    return None
+
+
 def check_x1_x2(ctx, templates: List[Template]) -> None:
     repo = ctx.repo
     reg = get_registry(repo)
@@ -217,6 +249,18 @@ def check_x1_x2(ctx, templates: List[Template]) -> None:
             ms = [t for t in runnable if _matches(t, needle)]
             if not ms:
                 legacy += 1
+                key6 = f'{cat}/{name}/some-writer-prints-this-label'
+                if (cat, name) in LEGACY_FIELDS:
+                    ctx.ok('X6', key6, 'src/geophires_x_client/geophires_x_result.py', 'kept for reports of earlier versions: ' + LEGACY_FIELDS[(cat, name)])
+                elif any(_matches(t, needle) for t in templates):
+                    ctx.ok('X6', key6, 'src/geophires_x_client/geophires_x_result.py', 'printed by the AGS writer only')
+                else:
+                    near = _nearest_label(runnable, name)
+                    ctx.bad('X6', key6, near.where if near is not None else 'src/geophires_x_client/geophires_x_result.py',
+                            f'the client (and the result schema) name the field `{name}` in {cat}, but no report writer prints a line the '
+                            f'client\'s matcher `{needle}` finds' + (f' - the closest is `{near.label}` ({near.where}): the label differs on one '
+                                                                      f'side only, so the field comes back as None from a fresh report'
+                                                                      if near is not None else ''))
                 continue
             nmatch += 1
             key = f'{cat}/{name}'
@@ -813,6 +857,7 @@ def check_result_file_identity(ctx) -> None:
 
 
 def run(ctx) -> None:
+    ctx.rule('X6', 'every field the client (and the result schema) names is printed by some report writer, except the frozen legacy labels')
     ctx.rule('X5', 'the report file the client parses is named after the whole input path (or a fresh id): different inputs never share it')
     ctx.rule('J4', 'between the report and the JSON dump nothing changes an output value: writers and their helpers are read-only on `.value` and on locals that may share its storage')
     ctx.rule('X1', 'for each of the client\'s result fields the writer templates its predicate can match are pairwise either mutually '
